@@ -214,7 +214,10 @@ pub fn run(run: &mut Run) {
         "positions outside the listed universes are covered only by the small-scope argument of DESIGN.md section 4".into(),
     ];
     let thorough = run.thorough();
-    standard_position_universes(run, thorough, DISAGREE, &check_pos);
+    let mut sel = Sel::standard(thorough);
+    // quick: the corner slice of M4 (the full M4 is in thorough)
+    sel.m4_corner = if thorough { None } else { Some(7) };
+    run_universes(run, &sel, DISAGREE, &check_pos);
 }
 
 pub fn replay(case: &Value, ctx: &mut Ctx) {
